@@ -106,3 +106,13 @@ package certs
 //@   ensures[rejection_returns_no_table] result1 != nil ==> len(result0) == 0
 //@   ensures[accepted_deltas_are_strictly_sorted_without_empty_entries] result1 == nil ==>
 //@        forall(j, 0, len(diffs), diffCanonicalShape(diffs[j], len(diffs[j])))
+
+// C03: a certificate is made only from a round-0 DECIDE justification for a non-empty value, and carries exactly its
+// instance, supplemental data, value, signers and aggregate, plus the given delta.
+//@ func NewFinalityCertificate
+//@   property C03
+//@   modifies auto
+//@   maypanic
+//@   ensures[only_from_a_round_zero_decide_for_a_non_empty_value] result1 == nil ==> justification.Vote.Phase == gpbft.DECIDE_PHASE && justification.Vote.Round == 0 && !res(IsZero, 1) && argOf(IsZero, 1, 0) == justification.Vote.Value
+//@   ensures[carries_the_justification_unchanged] result1 == nil ==> result0 != nil && result0.GPBFTInstance == justification.Vote.Instance && result0.SupplementalData == justification.Vote.SupplementalData && result0.ECChain == justification.Vote.Value && result0.Signers == justification.Signers && result0.Signature == justification.Signature && result0.PowerTableDelta == powerDelta
+//@   ensures[no_certificate_on_error] result1 != nil ==> result0 == nil
